@@ -6,6 +6,7 @@ CONSTANTS
   FixLeave = TRUE
   FixWrap = TRUE
   FixDead = TRUE
+  FixAdopt = TRUE
   MaxTry = 3
   TrackCov = FALSE
   Goal = "none"
